@@ -135,7 +135,7 @@ func NewServer() *fakesql.Server {
 	for _, t := range Tables {
 		var cols []fakesql.Column
 		for _, c := range t.Cols {
-			nullable := strings.HasPrefix(c.Ty, "*") || c.ImplicitNull
+			nullable := strings.HasPrefix(c.Ty, "*") || c.ImplicitNull || c.Ty == "bytes" // a NULL blob scans into a nil slice
 			cols = append(cols, fakesql.Column{Name: c.Name, Type: c.SQL, Primary: c.Primary,
 				AutoIncrement: t.Auto && c.Primary, Nullable: nullable})
 		}
@@ -148,7 +148,7 @@ func NewServer() *fakesql.Server {
 
 // GV describes a Go value.  T is one of: "nil", "int", "int8", "int16", "int32", "int64", "uint", "uint8",
 // "uint16", "uint32", "uint64", "Kind" (named int32), "string", "Label" (named string), "bool", "float64"
-// (Q quarter units), "bytes", "ptr" (non-nil pointer to Elem; Addr identifies the pointer object within a
+// (Q quarter units), "bytes" (non-nil []byte), "nilbytes" ([]byte(nil)), "ptr" (non-nil pointer to Elem; Addr identifies the pointer object within a
 // case), "nilptr" (nil pointer to a value of type PT).
 type GV struct {
 	T    string `json:"t"`
@@ -228,6 +228,8 @@ func (g GV) Go(p Pool) interface{} {
 		return float64(g.Q) / 4
 	case "bytes":
 		return []byte(g.S)
+	case "nilbytes":
+		return []byte(nil)
 	}
 	if strings.HasPrefix(g.T, "uint") {
 		return reflect.ValueOf(uint64(g.Z)).Convert(scalarType(g.T)).Interface()
@@ -278,6 +280,8 @@ func (g GV) Coq() string {
 		return "(GFloat " + vh.CoqZ(g.Q) + ")"
 	case "bytes":
 		return "(GBytes " + vh.CoqString(g.S) + ")"
+	case "nilbytes":
+		return "GNilBytes"
 	case "Kind":
 		return `(GInt KI32 "Kind" ` + vh.CoqZ(g.Z) + ")"
 	}
@@ -452,6 +456,9 @@ func DriverOf(c *ColDesc, v interface{}) interface{} {
 	case reflect.Float32, reflect.Float64:
 		return rv.Float()
 	case reflect.Slice:
+		if rv.IsNil() {
+			return nil
+		}
 		if b, ok := rv.Interface().([]byte); ok {
 			return b
 		}
